@@ -82,7 +82,8 @@ public:
         for (Index k = 0; k < this->m_correction_size; k++)
         {
             Vector tmp = eigvals(k) - m_diagonal.array();
-            correction.col(k) = residues.col(k).array() / tmp.array();
+            // where theta == a_ii the diagonal preconditioner is singular: apply its pseudo-inverse (component 0), not 0/0
+            correction.col(k) = (tmp.array() == Scalar(0)).select(Scalar(0), residues.col(k).array() / tmp.array());
         }
         return correction;
     }
